@@ -40,12 +40,17 @@ pub struct Run {
     pub min_progress: bool,     // assert per-call progress (C08)
     pub full_while_pending: bool,
     pub prefix_check: usize,    // C12: encoding index + 1 whose real decoder must accept the output so far after every call
+    pub wf_check: bool,         // C05: the units written by every call must be well-formed on their own (whole characters)
+    pub str_fill: usize,        // C05: 0 = zero-filled &mut str; k = pre-filled with valid multi-byte text (3-byte characters) at phase k-1
+    pub sym_fill: u32,          // C18: 0 = off; t = destination pre-filled with fresh symbolic units (tags t, t+1, ...)
+    pub keep_prefix: bool,      // C06: String / Vec sinks start with existing content that must survive, capacity unchanged
 }
 
 impl Run {
     pub fn new(cap: usize) -> Run {
         Run { log: Log::new(), calls: 0, total_read: 0, had_errors: false, output_full_seen: false, finished: false,
-              caps: [cap; 8], ncaps: 1, cap_lo: cap, cap_hi: cap, drawn: 0, max_calls: 200, min_progress: true, full_while_pending: false, prefix_check: 0 }
+              caps: [cap; 8], ncaps: 1, cap_lo: cap, cap_hi: cap, drawn: 0, max_calls: 200, min_progress: true, full_while_pending: false, prefix_check: 0,
+              wf_check: false, str_fill: 0, sym_fill: 0, keep_prefix: false }
     }
     /// symbolic per-call capacities in lo..=hi for the first `n` calls (then cycled)
     pub fn sym_caps(&mut self, lo: usize, hi: usize, n: usize) { self.cap_lo = lo; self.cap_hi = hi; self.ncaps = n; self.drawn = 0; }
@@ -69,8 +74,9 @@ pub fn push_noreplace(dec: &mut Decoder, sink: usize, src: &[u8], last: bool, ru
     loop {
         let cap = run.cap();
         let rest = &src[pos..];
-        let mut d16 = [0u16; BUF];
-        let mut d8 = [0u8; BUF];
+        let mut d16 = [0u16; BUF + 4];
+        let mut d8 = [0u8; BUF + 4];
+        if sink == SK_U16 { prefill16(run, &mut d16, cap); } else if sink != SK_STRING { prefill8(run, &mut d8, cap); }
         let (res, read, written) = match sink {
             SK_U16 => dec.decode_to_utf16_without_replacement(rest, &mut d16[..cap], last),
             SK_U8 => dec.decode_to_utf8_without_replacement(rest, &mut d8[..cap], last),
@@ -79,16 +85,21 @@ pub fn push_noreplace(dec: &mut Decoder, sink: usize, src: &[u8], last: bool, ru
                 dec.decode_to_str_without_replacement(rest, s, last)
             }
             _ => {
-                let mut s = alloc::string::String::with_capacity(cap);
+                let k = if run.keep_prefix { 2 } else { 0 };
+                let mut s = alloc::string::String::with_capacity(cap + k);
+                if run.keep_prefix { s.push('\u{E4}'); }
                 let (r, rd) = dec.decode_to_string_without_replacement(rest, &mut s, last);
-                let w = s.len();
+                let w = s.len() - k;
                 check(w <= cap, 110);
-                check(s.capacity() == cap, 111);
+                check(s.capacity() == cap + k, 111);
                 let b = s.as_bytes();
-                let mut i = 0; while i < w { d8[i] = b[i]; i += 1; }
+                if run.keep_prefix { check(b[0] == 0xC3 && b[1] == 0xA4, 115); }
+                if run.wf_check { check(super::refs::utf8_valid_up_to(b) == b.len(), 116); }
+                let mut i = 0; while i < w { d8[i] = b[k + i]; i += 1; }
                 (r, rd, w)
             }
         };
+        if sink == SK_U16 { post16(run, &d16, cap, written); } else { post8(run, &d8, cap, written, sink == SK_STR); }
         run.calls += 1;
         check(read <= rest.len(), 100);
         check(written <= cap, 101);
@@ -127,8 +138,9 @@ pub fn push_replace(dec: &mut Decoder, sink: usize, src: &[u8], last: bool, run:
     loop {
         let cap = run.cap();
         let rest = &src[pos..];
-        let mut d16 = [0u16; BUF];
-        let mut d8 = [0u8; BUF];
+        let mut d16 = [0u16; BUF + 4];
+        let mut d8 = [0u8; BUF + 4];
+        if sink == SK_U16 { prefill16(run, &mut d16, cap); } else if sink != SK_STRING { prefill8(run, &mut d8, cap); }
         let (res, read, written, had) = match sink {
             SK_U16 => dec.decode_to_utf16(rest, &mut d16[..cap], last),
             SK_U8 => dec.decode_to_utf8(rest, &mut d8[..cap], last),
@@ -137,16 +149,21 @@ pub fn push_replace(dec: &mut Decoder, sink: usize, src: &[u8], last: bool, run:
                 dec.decode_to_str(rest, s, last)
             }
             _ => {
-                let mut s = alloc::string::String::with_capacity(cap);
+                let k = if run.keep_prefix { 2 } else { 0 };
+                let mut s = alloc::string::String::with_capacity(cap + k);
+                if run.keep_prefix { s.push('\u{E4}'); }
                 let (r, rd, h) = dec.decode_to_string(rest, &mut s, last);
-                let w = s.len();
+                let w = s.len() - k;
                 check(w <= cap, 110);
-                check(s.capacity() == cap, 111);
+                check(s.capacity() == cap + k, 111);
                 let b = s.as_bytes();
-                let mut i = 0; while i < w { d8[i] = b[i]; i += 1; }
+                if run.keep_prefix { check(b[0] == 0xC3 && b[1] == 0xA4, 115); }
+                if run.wf_check { check(super::refs::utf8_valid_up_to(b) == b.len(), 116); }
+                let mut i = 0; while i < w { d8[i] = b[k + i]; i += 1; }
                 (r, rd, w, h)
             }
         };
+        if sink == SK_U16 { post16(run, &d16, cap, written); } else { post8(run, &d8, cap, written, sink == SK_STR); }
         run.calls += 1;
         check(read <= rest.len(), 100);
         check(written <= cap, 101);
@@ -207,4 +224,32 @@ pub fn ref_log(e: usize, src: &[u8], sink: usize, repl: bool, out: &mut Log) -> 
     }
     if raw.overflow { out.overflow = true; }
     had
+}
+
+/// pre-fill of a destination before a call (C05 / C18) -- applies to the first `cap` units
+pub fn prefill8(run: &Run, d: &mut [u8], cap: usize) {
+    if run.sym_fill != 0 { let mut i = 0; while i < cap { d[i] = sym_u8(run.sym_fill + i as u32); i += 1; } }
+    else if run.str_fill != 0 {
+        // valid UTF-8: `phase` ASCII bytes, then whole 3-byte characters, then ASCII to the end
+        let phase = run.str_fill - 1;
+        let mut i = 0;
+        while i < cap && i < phase { d[i] = 0x61; i += 1; }
+        while i + 3 <= cap { d[i] = 0xE2; d[i + 1] = 0x82; d[i + 2] = 0xAC; i += 3; }
+        while i < cap { d[i] = 0x62; i += 1; }
+    }
+}
+pub fn prefill16(run: &Run, d: &mut [u16], cap: usize) {
+    if run.sym_fill != 0 { let mut i = 0; while i < cap { d[i] = sym_u16(run.sym_fill + i as u32); i += 1; } }
+}
+
+/// per-call postconditions shared by the decoder drivers: guard units beyond the capacity untouched (C06), written
+/// units well-formed on their own (C05), whole &mut str valid (C05)
+pub fn post8(run: &Run, d: &[u8], cap: usize, written: usize, is_str: bool) {
+    check(d[cap] == 0 && d[cap + 1] == 0 && d[cap + 2] == 0 && d[cap + 3] == 0, 112);
+    if run.wf_check { check(super::refs::utf8_valid_up_to(&d[..written]) == written, 113); }
+    if is_str && run.sym_fill == 0 { check(super::refs::utf8_valid_up_to(&d[..cap]) == cap, 114); }
+}
+pub fn post16(run: &Run, d: &[u16], cap: usize, written: usize) {
+    check(d[cap] == 0 && d[cap + 1] == 0 && d[cap + 2] == 0 && d[cap + 3] == 0, 112);
+    if run.wf_check { check(super::refs::utf16_valid_up_to(&d[..written]) == written, 113); }
 }
